@@ -60,14 +60,14 @@ def main(d: str, seed: str, tier: str) -> None:
                   "look_runs_where_a_deme_woke": 0}
     for a, bs in lk:
         ea = strip(by[a["name"]]["events"])
-        look_stats["look_runs_with_hibernation"] += int(any(any(d[2] for d in e["demes"]) for e in ea))
+        look_stats["look_runs_with_hibernation"] += int(any(any(dm[2] for dm in e["demes"]) for e in ea))
         hib_seen = set()
         woke = False
         for e in ea:
-            for d in e["demes"]:
-                if d[2]:
-                    hib_seen.add(d[0])
-                elif d[0] in hib_seen and d[1]:
+            for dm in e["demes"]:
+                if dm[2]:
+                    hib_seen.add(dm[0])
+                elif dm[0] in hib_seen and dm[1]:
                     woke = True
         look_stats["look_runs_where_a_deme_woke"] += int(woke)
         for b in bs:
